@@ -1199,7 +1199,7 @@ def check_c13(tier, replay):
             log("REPLAY-DIVERGENCE " + x["summary"][:1500])
         return 1 if summ["violations"] else 0
     maxops = "2" if tier == "quick" else "3"
-    devs = sorted({"NoReconcile"} & {k["deviation"] for k in known.values() if "deviation" in k})
+    devs = sorted({"NoReconcile", "TornTailNoRecovery"} & {k["deviation"] for k in known.values() if "deviation" in k})
     states = trans = 0
     cases = []
     for backend in ("fs", "db"):
@@ -1264,7 +1264,10 @@ def check_c13(tier, replay):
               if os.path.getsize(os.path.join(wd, "cases_%02d.ndjson" % i)) > 0]
     summ = vlib.run_harness_parallel(
         lambda p: [vlib.harness_bin("replay"), "crash", p, os.path.join(scratch, os.path.basename(p)[:8])],
-        inputs, jobs=12, timeout_s=3000, env={"VERIF_KNOWN": ",".join(sorted(known))})
+        inputs, jobs=12, timeout_s=3000,
+        env=dict({"VERIF_KNOWN": ",".join(sorted(known))}, **({"VERIF_TORN_ALL": "1"} if tier != "quick" else {})))
+    if not any(k.split("|")[1].endswith(":torn") for k in summ["nontrivial_keys"]):
+        raise ToolError("no torn append was executed")
     cover = {
         "evaluations": summ["evaluated"], "distinct_nontrivial": len(set(summ["nontrivial_keys"])),
         "rule": "Crash.tla refines create/update/delete of a secret and folder compaction into their "
@@ -1276,15 +1279,18 @@ def check_c13(tier, replay):
                 "account, arms the probe of that step boundary (hook H2) and dies there by abort(); the "
                 "parent re-opens the account through the normal path and checks: it opens, the folder log "
                 "has the length before or after the operation, reduce(log) = served = persisted, integrity "
-                "report clean. Non-trivial = case in which the child really died at the probe; distinct by "
-                "(backend, crash point, history)." % maxops,
+                "report clean. Action Tear: the process dies inside the append of a record to the "
+                "file-system log; the harness performs the operation, cuts the .events file at byte prefixes of "
+                "the appended region and re-opens each. Non-trivial = case in which the child really died at the "
+                "probe (or a cut file was re-opened); distinct by (backend, crash point, history, cut)." % maxops,
         "samples": summ["samples"][:3], "states": states, "transitions": trans,
         "exhaustive": tier != "quick", "cases": len(cases), "processes_killed": summ["steps"],
         "counters": summ["counters"], "deviations_modelled": devs,
         "model_mismatches": len(summ["mismatches"]),
     }
     assumptions = ["process death only: the file system applies completed writes in program order (no power-loss "
-                   "reordering); torn writes inside one write() call are not yet enumerated",
+                   "reordering); a torn append is a byte prefix of the record appended to the folder's file-system "
+                   "event log (quick: 12 cuts per case, thorough: every byte); torn vault rewrites are not enumerated",
                    "probe placement (MANIFEST.hooks) names the step boundaries of Crash.tla"]
     vlib.write_evidence(prop, tier, "fault_enumeration", cover, assumptions, time.time() - t0,
                         len(summ["violations"]))
